@@ -235,3 +235,37 @@ package authenticode
 //@        0 <= hvals.certStart && hvals.certStart <= 4294967295 && 0 <= hvals.certSize && hvals.certSize <= 4294967295
 //@   allocbound 0 4096
 //@   allocbound 1 8
+//@
+//@ func NewPEChecksum
+//@   property C05
+//@   requires peStart <= 4611686018427387904
+//@   ensures @checksum_field_sits_88_bytes_into_the_pe_header ret0 != nil && istype(ret0, *peChecksum) && \
+//@        (peStart > 0 ==> unbox(ret0, *peChecksum).cksumPos == peStart + 88) && (peStart <= 0 ==> unbox(ret0, *peChecksum).cksumPos == -1) && \
+//@        unbox(ret0, *peChecksum).sum == 0 && unbox(ret0, *peChecksum).size == 0 && !unbox(ret0, *peChecksum).odd
+//@
+//@ func (*peChecksum).Write
+//@   property C05 C09 C11
+//@   nopanic
+//@   requires h.cksumPos >= -2 && h.cksumPos <= 4611686018427387904 && len(d) <= 4611686018427387904
+//@   ensures @field_position_carried_to_the_next_write ret1 == nil ==> \
+//@        (old(h.cksumPos) == -1 ==> h.cksumPos == -1) && \
+//@        (old(h.cksumPos) != -1 && old(h.cksumPos) + 4 <= old(len(d)) ==> h.cksumPos == -1) && \
+//@        (old(h.cksumPos) != -1 && old(h.cksumPos) + 4 > old(len(d)) ==> h.cksumPos == old(h.cksumPos) - old(len(d)))
+//@   ensures @every_byte_counted ret1 == nil ==> ret0 == old(len(d)) && h.size == (old(h.size) + old(len(d))) % 4294967296
+//@   ensures @odd_length_only_at_the_end old(h.odd) ==> ret1 != nil
+//@   loop 0 sig "for i := 0; i < n; i += 2" invariant 0 <= i && i % 2 == 0 && 0 <= n && n <= len(d) && (n % 2 == 1 ==> len(d) == n + 1) && n == old(len(d))
+//@   allocbound 0 len(d) + 1
+//@   modifies h.cksumPos, h.sum, h.size, h.odd
+//@
+//@ func FixPEChecksum
+//@   property C05
+//@   requires f != nil
+//@   ghost pe int = -1
+//@   on call readDosHeader(_, _) ret (p, e): pe = p
+//@   before call NewPEChecksum(p): assert @checksum_computed_for_this_image_header p == pe
+//@   before call (*os.File).WriteAt(w, b, off): assert @checksum_written_into_the_field_it_skipped w == f && off == pe + 88
+//@
+//@ func (*peChecksum).Sum
+//@   property C05 C11
+//@   nopanic
+//@   ensures @four_checksum_bytes_appended len(ret0) == len(buf) + 4
